@@ -57,7 +57,7 @@ class Container:
                     self._itemclass.__name__)
             )
 
-        self._file._h5group.delete_all([item.id])
+        self._file._h5group.delete_all([item.id], [item._h5group.h5obj])
 
     def __iter__(self):
         for group in self._backend:
@@ -123,9 +123,11 @@ class SectionContainer(Container):
 
         # collect all IDs under item and send them for deletion, starting from
         # the root block
-        secids = [s.id for s in item.find_sections()]
+        sections = list(item.find_sections())
+        secids = [s.id for s in sections]
 
-        self._file._h5group.delete_all(secids)
+        self._file._h5group.delete_all(secids,
+                                       [s._h5group.h5obj for s in sections])
 
 
 class SourceContainer(Container):
@@ -146,9 +148,11 @@ class SourceContainer(Container):
 
         # collect all IDs under item and send them for deletion, starting from
         # the root block
-        srcids = [s.id for s in item.find_sources()]
-        srcids.append(item.id)
-        self._file._h5group.delete_all(srcids)
+        sources = list(item.find_sources())
+        sources.append(item)
+        srcids = [s.id for s in sources]
+        self._file._h5group.delete_all(srcids,
+                                       [s._h5group.h5obj for s in sources])
 
 
 class LinkContainer(Container):
